@@ -1,6 +1,6 @@
 #!/bin/sh
-# stop running checks and their solver processes (bracket trick: never matches this shell)
-for p in $(ps -eo pid,args | grep "symx/[c]heck.py" | awk '{print $1}'); do kill $p 2>/dev/null; done
+# stop running checks (python processes only, never the calling shell) and their solver processes
+for p in $(ps -eo pid,comm,args | awk '$2 ~ /^python/ && /symx\/check\.py/ {print $1}'); do kill $p 2>/dev/null; done
 sleep 1
 killall -9 cbmc kissat z3 cvc5 2>/dev/null
 exit 0
